@@ -46,7 +46,7 @@ def instances(tier):
         out.append(dict(id="continued-lookup-%s-N2" % fam, family=fam, N=2, mode="lookup", cont=True, budget=b))
     # the equation's parameters (OdeSystem.constants) are replaced between two calls: every piece has the end slopes of the equation in force
     # when its step was taken
-    for fam in (("rk4", "euler") if quick else ("euler", "rk4", "dopri45", "sympl_euler", "heun_euler")):
+    for fam in (("rk4", "euler", "sympl_euler") if quick else ("euler", "rk4", "dopri45", "sympl_euler", "heun_euler")):
         out.append(dict(id="continued-constants-replaced-%s-N2" % fam, family=fam, N=2, mode="pieces", cont=True, constants_change=True, budget=b))
     out.append(dict(id="lookup-euler-N2-after-reset-reversed", family="euler", N=2, mode="lookup", reset_then_reverse=True, budget=b))
     out.append(dict(id="pieces-euler-N2-after-reset-reversed", family="euler", N=2, mode="pieces", reset_then_reverse=True, budget=b))
